@@ -855,12 +855,7 @@ func (p *Path) jsonDecode(j *JV, ptr PtrV, t types.Type, site ssa.Instruction) V
 				fv = j.F
 			}
 			if u.Kind() == types.Float32 && !fv.Conc {
-				// a float64 token decoded into float32: value is narrowed (stub)
-				if fv.Prov == nil || fv.Prov.Fn != "f32to64" {
-					fv = p.floatStub("f64to32", fv)
-				} else {
-					fv = fv.Prov.Args[0].(FloatV)
-				}
+				fv = p.narrow32(fv)
 			} else if u.Kind() == types.Float32 {
 				fv = FloatV{Conc: true, F: float64(float32(fv.F))}
 			}
